@@ -755,3 +755,141 @@ def encode_api(ctx, rep):
             rep.check(o.state.mem.objs['seed'] == before, 'seed not modified', w, cons, key='ENC-TRACE|seed')
             others = [t[0] for t in o.state.trace if t[0] in ('alloc', 'free', 'randbytes', 'time', 'pbkdf2', 'u8_nfkd')]
             rep.check(not others, 'no other injected function used by encode', w, cons, detail=others, key='ENC-TRACE|deps')
+
+
+# =====================================================================  C09: language detection
+def _search_summary(I, mode, per_word_lang=None):
+    """lang_search summary. mode 'lang': one symbolic bit M[lang] decides all 16 lookups of a language;
+    per_word_lang: for that language each lookup has its own outcome bit W[wi]"""
+    calls = []
+    def ls(I, st, args, inst):
+        lang, word, cmp_ = args[0], args[1], args[2]
+        ln = lang.obj[2:] if isinstance(lang, Ptr) else repr(lang)
+        wi = word.payload if isinstance(word, Tag) and word.kind == 'token' else None
+        calls.append((ln, wi, repr(cmp_), inst.fn.name))
+        st.trace.append(('lang_search', ln, wi, repr(cmp_)))
+        bit = I.V.bit('W[%s]' % wi) if ln == per_word_lang else I.V.bit('M[%s]' % ln)
+        b = st.cons.reduce(bit)
+        found = BV(I.V.bv('r[%s][%s]' % (ln, wi), GF_BITS).bits + [0] * (32 - GF_BITS))
+        if b == 1: return found
+        if b == 0: return BV.const(0xffffffff, 32)
+        outs = []
+        for val, ret in ((0, BV.const(0xffffffff, 32)), (1, found)):
+            s = st.clone()
+            if s.cons.add(bit, val): outs.append(Outcome(s, ret))
+        return outs
+    return ls, calls
+
+
+def detection(ctx, rep):
+    for cfg in cfgs_for(ctx):
+        P = ctx.prog(cfg)
+        if cfg not in rep.configs: rep.configs.append(cfg)
+        T = ctx.tables()
+        status = P.enum('polyseed_status'); inv = {v: k for k, v in status.items()}
+        f = P.fn('polyseed_phrase_decode'); w = loc_of(f)
+        langs = list(T.registry)
+        def setup(I, st, lang_out=True):
+            st.mem.new('phrase', 128, 0)
+            for k in range(16):
+                for j in range(8): st.mem.objs['phrase'][8 * k + j] = ('tag', Tag('token', k), j)
+            st.mem.new('idx_out', 128, 0)
+            for k in range(16): put(st, 'idx_out', 8 * k, I.V.bv('old%d' % k, 64))
+            st.mem.new('lang_out', 8, 0)
+            for j in range(8): st.mem.objs['lang_out'][j] = ('tag', Tag('old-lang'), j)
+            return [Ptr('phrase', 0), Ptr('idx_out', 0), Ptr('lang_out', 0) if lang_out else BV.const(0, 64)]
+        rep.rule('DETECT', 'polyseed_phrase_decode with the per-language search summarised (one symbolic outcome bit per registered language; found '
+                 'indices are symbols): for every one of the 2^10 outcome assignments the result is OK iff exactly one language matched - and then '
+                 'idx_out holds exactly that language\'s 16 indices and *lang_out that language -, MULT_LANG iff two or more matched (whatever the '
+                 'indices are), ERR_LANG iff none matched with idx_out and *lang_out untouched; every registered language is tried; the temporary '
+                 'index array is wiped on every exit; a NULL lang_out is not written through')
+        ls, calls = _search_summary(None, 'lang')
+        I = mk_interp(P, extra={'lang_search': ls}); I.budget = 20000; I.max_steps = 4000000
+        st = State()
+        outs = I.run(f, setup(I, st), st)
+        rep.info['detection_partitions'] = len(outs)
+        tried = sorted(set(c[0] for c in calls))
+        rep.check(tried == sorted(langs), 'every registered language is searched (%d)' % len(langs), w, f.name, detail={'searched': tried, 'registered': sorted(langs)},
+                  sample={'languages_tried': len(tried)}, key='DETECT|all-languages')
+        nchk = 0
+        for o in outs:
+            C = o.state.cons
+            M = {ln: C.reduce(I.V.bit('M[%s]' % ln)) for ln in langs}
+            decided = [ln for ln in langs if M[ln] == 1]
+            undec = [ln for ln in langs if not is_const(M[ln])]
+            rv = inv.get(o.ret.concrete(), str(o.ret))
+            cons = 'phrase_decode partition matched=%s undecided=%d' % ([x.replace('polyseed_lang_', '') for x in decided], len(undec))
+            nchk += 1
+            if len(decided) >= 2:
+                rep.check(rv == 'POLYSEED_ERR_MULT_LANG', 'two or more matching languages -> MULT_LANG', w, cons, detail=rv, sample={'matched': decided, 'status': rv} if nchk < 4 else None,
+                          key='DETECT|mult|%s' % '+'.join(sorted(decided)[:2]))
+            elif undec:
+                rep.fail('the outcome is decided only after every language has been tried (no early exit while fewer than two languages matched)', w, cons,
+                         detail={'status': rv, 'languages_not_tried': undec[:4]}, key='DETECT|early|%s' % rv)
+            elif len(decided) == 0:
+                ok = rv == 'POLYSEED_ERR_LANG'
+                unt = all(get(o.state, 'idx_out', 8 * k, 8).bits == I.V.bv('old%d' % k, 64).bits for k in range(16))
+                lo = I.load(o.state, Ptr('lang_out', 0), 8, f.blocks[0][0], as_ptr=True)
+                rep.check(ok and unt and lo == Tag('old-lang'), 'no matching language -> ERR_LANG, outputs untouched', w, cons, detail=rv, key='DETECT|none')
+            else:
+                ln = decided[0]
+                ok = rv == 'POLYSEED_OK'
+                idx_ok = all([C.reduce(b) for b in get(o.state, 'idx_out', 8 * k, 8).bits] == [C.reduce(b) for b in I.V.bv('r[%s][%s]' % (ln, k), GF_BITS).bits] + [0] * 53 for k in range(16))
+                lo = I.load(o.state, Ptr('lang_out', 0), 8, f.blocks[0][0], as_ptr=True)
+                rep.check(ok and idx_ok and lo == Ptr('g:' + ln, 0), 'exactly one matching language (%s) -> OK with its indices and its table' % ln, w, cons,
+                          detail={'status': rv, 'indices_ok': idx_ok, 'lang_out': repr(lo)}, sample={'matched': ln, 'status': rv} if nchk < 30 and ln.endswith('en') else None,
+                          key='DETECT|one|%s' % ln)
+            wz = [t for t in o.state.trace if t[0] == 'memzero' and ':idx:' in t[1]]
+            rep.check(bool(wz), 'temporary index array wiped on this exit', w, cons, key='DETECT|wipe')
+        # NULL lang_out
+        ls2, _ = _search_summary(None, 'lang')
+        I2 = mk_interp(P, extra={'lang_search': ls2}); I2.budget = 20000; I2.max_steps = 4000000
+        st2 = State()
+        outs2 = I2.run(f, setup(I2, st2, lang_out=False), st2)
+        rep.check(len(outs2) == len(outs) and all(o.state.mem.objs['lang_out'] == st2.mem.objs['lang_out'] for o in outs2), 'lang_out == NULL is accepted and nothing is written through it', w, f.name, key='DETECT|null-lang-out')
+
+        rep.rule('DETECT-WORD', 'a language counts as matching iff all 16 lookups succeed: with one outcome bit per word for one language (all others not '
+                 'matching) the result is OK iff all 16 bits are set, and the first failing lookup ends that language\'s attempt; the same per-language '
+                 'search (lang_search(lang, phrase[wi], get_comparer(lang))) is used by polyseed_phrase_decode_explicit, which returns OK with the 16 '
+                 'indices iff all lookups succeed and ERR_LANG otherwise')
+        positions = [0, len(langs) - 1] if ctx.tier == 'quick' else list(range(len(langs)))
+        for pos in positions:
+            ln = langs[pos]
+            ls3, calls3 = _search_summary(None, 'lang', per_word_lang=ln)
+            I3 = mk_interp(P, extra={'lang_search': ls3}); st3 = State()
+            for other in langs:
+                if other != ln: st3.cons.add(I3.V.bit('M[%s]' % other), 0)
+            outs3 = I3.run(f, setup(I3, st3), st3)
+            for o in outs3:
+                C = o.state.cons
+                W = [C.reduce(I3.V.bit('W[%d]' % k)) for k in range(16)]
+                rv = inv.get(o.ret.concrete(), str(o.ret))
+                allset = all(b == 1 for b in W)
+                firstfail = next((k for k, b in enumerate(W) if b == 0), None)
+                und = [k for k, b in enumerate(W) if not is_const(b)]
+                ok = (rv == 'POLYSEED_OK') == allset and (allset or (firstfail is not None and all(W[k] == 1 for k in range(firstfail)) and all(k > firstfail for k in und)))
+                rep.check(ok, '%s: lookups %s -> %s' % (ln, ''.join('1' if b == 1 else ('0' if b == 0 else '?') for b in W), rv), w, 'phrase_decode inner loop, language %s' % ln,
+                          detail={'W': [I3.V.show(b) for b in W], 'status': rv}, sample={'language': ln, 'lookups': ''.join('1' if b == 1 else ('0' if b == 0 else '?') for b in W), 'status': rv} if firstfail in (None, 0, 15) else None,
+                          key='DETECT-WORD|%s|%s' % (ln, firstfail))
+            rep.check(len(outs3) == 17, '%s: 17 partitions (all found, or first failure at word 0..15)' % ln, w, 'phrase_decode inner loop', detail=len(outs3), key='DETECT-WORD|%s|count' % ln)
+        # explicit decoder
+        g = P.fn('polyseed_phrase_decode_explicit'); wg = loc_of(g)
+        ln = langs[0]
+        ls4, calls4 = _search_summary(None, 'lang', per_word_lang=ln)
+        I4 = mk_interp(P, extra={'lang_search': ls4}); st4 = State()
+        a = setup(I4, st4)
+        outs4 = I4.run(g, [a[0], Ptr('g:' + ln, 0), a[1]], st4)
+        for o in outs4:
+            C = o.state.cons
+            W = [C.reduce(I4.V.bit('W[%d]' % k)) for k in range(16)]
+            rv = inv.get(o.ret.concrete(), str(o.ret)); allset = all(b == 1 for b in W)
+            ok = (rv == 'POLYSEED_OK') == allset and rv in ('POLYSEED_OK', 'POLYSEED_ERR_LANG')
+            if allset:
+                ok = ok and all([C.reduce(b) for b in get(o.state, 'idx_out', 8 * k, 8).bits] == [C.reduce(b) for b in I4.V.bv('r[%s][%s]' % (ln, k), GF_BITS).bits] + [0] * 53 for k in range(16))
+            rep.check(ok, 'explicit: lookups %s -> %s' % (''.join('1' if b == 1 else ('0' if b == 0 else '?') for b in W), rv), wg, 'phrase_decode_explicit', detail=rv, key='DETECT-WORD|explicit|%s' % rv)
+        rep.check(len(outs4) == 17, 'explicit: 17 partitions', wg, g.name, detail=len(outs4), key='DETECT-WORD|explicit|count')
+        sig_auto = sorted(set((c[1], c[2]) for c in calls3 if c[0] == ln)) if positions and langs[positions[-1]] == ln else None
+        sig_a = sorted(set((c[0], c[2]) for c in calls))      # (language, comparator) pairs used by auto detection
+        sig_e = sorted(set((c[0], c[2]) for c in calls4))
+        rep.check(all(x in sig_a for x in sig_e), 'explicit decoding searches a language with the same comparator as auto-detection does', wg, g.name,
+                  detail={'explicit': sig_e, 'auto': [x for x in sig_a if x[0] == ln]}, sample=sig_e, key='DETECT-WORD|same-search')
